@@ -203,7 +203,10 @@ def corner_cases(tag):
                         ("M", 5, 5, 14, 14, b"z"), X]
     for j, (n, v) in enumerate([(300 * 1024, {"chunksize": 1024}), (70 * 1024, {"chunksize": 64}), (70 * 1024, {"chunksize": 1024, "comp": "zstd"}),
                                 (70 * 1024, {"chunksize": 1024, "comp": "lz4"}), (70 * 1024, {"chunked": False}),
-                                (130 * 1024, {"chunksize": 4096, "crc": False, "skipmi": True})]):
+                                (130 * 1024, {"chunksize": 4096, "crc": False, "skipmi": True}),
+                                # chunks of several hundred KiB at the stronger compression levels (larger codec windows)
+                                (300 * 1024, {"chunksize": 1024, "comp": "zstd", "level": 2}), (300 * 1024, {"chunksize": 1048576, "comp": "zstd", "level": 3}),
+                                (300 * 1024, {"chunksize": 1048576, "comp": "lz4", "level": 3}), (200 * 1024, {"chunksize": 1048576, "comp": "zstd", "level": 1})]):
         o = dict(base); o.update(v)
         cases.append({"id": "%scornerbig_%d" % (tag, j), "o": o, "calls": bigseq(n), "legal": True})
     return cases
